@@ -702,4 +702,5 @@ func run(c *vm.Ctx) {
 			runtime.GC()
 		}
 	}
+	runBlind2(c)
 }
